@@ -15,4 +15,7 @@ pub trait OutT {
     fn d_tup_rr(&self) -> (&Tok, &Tok);
     fn d_tup_oro(&self) -> (Tok, &Tok, Tok);
     fn d_poll_opt(&self) -> Poll<Option<&Tok>>;
+    fn d_res_or(&self) -> Result<Option<&Tok>, Result<&Tok, Tok>>;
+    fn d_poll_res(&self) -> Poll<Result<&Tok, Tok>>;
+    fn d_opt_vec_res(&self) -> Option<Vec<Result<&Tok, Tok>>>;
 }
